@@ -45,6 +45,219 @@ def lean_bytes(s):
     return "[" + ", ".join(str(b) for b in s.encode("ascii")) + "]"
 
 
+# ------------------------------------------------------------------------------------------------ grammar: PRINT items
+def grammar_path(repo):
+    """grammar.json of the tree-sitter-applesoft version pinned in the repo's Cargo.lock (cargo registry sources)"""
+    m = None
+    here = os.path.dirname(os.path.abspath(__file__))
+    for lockp in (os.path.join(repo, "Cargo.lock"), os.path.join(here, "..", "harness", "Cargo.lock")):
+        if os.path.exists(lockp):
+            m = re.search(r'name = "tree-sitter-applesoft"\s*\nversion = "([^"]+)"', open(lockp).read())
+            if m:
+                break
+    if not m:
+        # a scratch worktree has no Cargo.lock: the requirement of Cargo.toml (exact versions are pinned there)
+        m = re.search(r'tree-sitter-applesoft\s*=\s*"=?\s*([0-9][^"]*)"', open(os.path.join(repo, "Cargo.toml")).read())
+    if not m:
+        raise TranslatorError("version of tree-sitter-applesoft not found (Cargo.lock / Cargo.toml)")
+    homes = [os.environ.get("CARGO_HOME"), os.path.expanduser("~/.cargo"), "/root/.cargo"]
+    for h in homes:
+        if not h:
+            continue
+        base = os.path.join(h, "registry", "src")
+        if not os.path.isdir(base):
+            continue
+        for d in sorted(os.listdir(base)):
+            g = os.path.join(base, d, "tree-sitter-applesoft-" + m.group(1), "src", "grammar.json")
+            if os.path.exists(g):
+                return g
+    raise TranslatorError("grammar.json of tree-sitter-applesoft %s not found in the cargo registry" % m.group(1))
+
+
+def pattern_may_start_with_letter(pat):
+    """can a match of the regex start with an ASCII letter?  Walks the leading atoms while they are optional."""
+    i, n = 0, len(pat)
+    alts = []
+    depth = 0
+    cur = ""
+    for ch in pat:          # top-level alternatives
+        if ch in "([":
+            depth += 1
+        elif ch in ")]":
+            depth -= 1
+        if ch == "|" and depth == 0:
+            alts.append(cur); cur = ""
+        else:
+            cur += ch
+    alts.append(cur)
+    if len(alts) > 1:
+        return any(pattern_may_start_with_letter(a) for a in alts)
+    while i < n:
+        ch = pat[i]
+        if ch == "[":
+            j = pat.index("]", i + 1)
+            cls = pat[i + 1:j]
+            letters = bool(re.search(r"[A-Za-z]", re.sub(r"\\.", "", cls))) and not cls.startswith("^")
+            if cls.startswith("^"):
+                letters = True
+            i = j + 1
+        elif ch == "(":
+            d, j = 0, i
+            while j < n:
+                if pat[j] == "(":
+                    d += 1
+                elif pat[j] == ")":
+                    d -= 1
+                    if d == 0:
+                        break
+                j += 1
+            letters = pattern_may_start_with_letter(pat[i + 1:j].lstrip("?:"))
+            i = j + 1
+        elif ch == "\\":
+            letters = pat[i + 1:i + 2] in ("w",)
+            i += 2
+        elif ch == ".":
+            letters = True
+            i += 1
+        else:
+            letters = ch.isalpha()
+            i += 1
+        if letters:
+            return True
+        if i < n and pat[i] in "?*":
+            i += 1
+            continue
+        if i < n and pat[i] == "{" and pat[i + 1:i + 2] == "0":
+            i = pat.index("}", i) + 1
+            continue
+        return False
+    return False
+
+
+def print_item_kinds(gpath):
+    """[(visible node kind, first terminal may start with a letter)] for every node kind that can be a PRINT item, i.e.
+    every visible alternative of `_expr` (hidden rules expanded), from grammar.json"""
+    try:
+        g = json.load(open(gpath))
+    except Exception as ex:
+        raise TranslatorError("grammar.json unreadable: %r" % (ex,))
+    rules = g["rules"]
+    externals = {e.get("name") for e in g.get("externals", []) if e.get("type") == "SYMBOL"}
+    st = json.dumps(rules.get("statement", {}))
+    if '"tok_print"' not in st or '"_expr"' not in st:
+        raise TranslatorError("grammar.json: PRINT statement is not `tok_print repeat(choice(',', ';', _expr))`")
+
+    def nullable(r, seen):
+        t = r["type"]
+        if t == "BLANK":
+            return True
+        if t in ("STRING",):
+            return r["value"] == ""
+        if t in ("PATTERN",):
+            return False
+        if t == "SYMBOL":
+            if r["name"] in externals or r["name"] in seen:
+                return False
+            return nullable(rules[r["name"]], seen | {r["name"]})
+        if t == "CHOICE":
+            return any(nullable(m, seen) for m in r["members"])
+        if t == "SEQ":
+            return all(nullable(m, seen) for m in r["members"])
+        if t == "REPEAT":
+            return True
+        if t in ("REPEAT1", "PREC", "PREC_LEFT", "PREC_RIGHT", "PREC_DYNAMIC", "TOKEN", "IMMEDIATE_TOKEN", "FIELD", "ALIAS"):
+            return nullable(r["content"], seen)
+        raise TranslatorError("grammar.json: rule type %s not handled" % t)
+
+    def first_letter(r, seen):
+        """may the first character of something derived from r be a letter?"""
+        t = r["type"]
+        if t == "BLANK":
+            return False
+        if t == "STRING":
+            return r["value"][:1].isalpha()
+        if t == "PATTERN":
+            return pattern_may_start_with_letter(r["value"])
+        if t == "SYMBOL":
+            if r["name"] in externals:
+                return True             # the external scanner delivers variable names
+            if r["name"] in seen:
+                return False
+            return first_letter(rules[r["name"]], seen | {r["name"]})
+        if t == "CHOICE":
+            return any(first_letter(m, seen) for m in r["members"])
+        if t == "SEQ":
+            for m in r["members"]:
+                if first_letter(m, seen):
+                    return True
+                if not nullable(m, set()):
+                    return False
+            return False
+        if t in ("REPEAT", "REPEAT1", "PREC", "PREC_LEFT", "PREC_RIGHT", "PREC_DYNAMIC", "TOKEN", "IMMEDIATE_TOKEN", "FIELD", "ALIAS"):
+            return first_letter(r["content"], seen)
+        raise TranslatorError("grammar.json: rule type %s not handled" % t)
+
+    kinds = []
+
+    def visible(r, seen):
+        t = r["type"]
+        if t == "SYMBOL":
+            nm = r["name"]
+            if nm.startswith("_") and nm not in externals:
+                if nm not in seen:
+                    visible(rules[nm], seen | {nm})
+            elif nm not in kinds:
+                kinds.append(nm)
+        elif t == "CHOICE":
+            for m in r["members"]:
+                visible(m, seen)
+        elif t == "ALIAS":
+            if r.get("named") and r["value"] not in kinds:
+                kinds.append(r["value"])
+        elif t in ("PREC", "PREC_LEFT", "PREC_RIGHT", "PREC_DYNAMIC", "FIELD"):
+            visible(r["content"], seen)
+        elif t == "SEQ":
+            # a hidden sequence such as `( _aexpr )`: its first member decides the sibling kind only if visible; the
+            # anonymous `(` is not a NAMED sibling, the named one is what is inside
+            for m in r["members"]:
+                visible(m, seen)
+        elif t in ("STRING", "PATTERN", "BLANK", "REPEAT", "REPEAT1", "TOKEN", "IMMEDIATE_TOKEN"):
+            pass
+        else:
+            raise TranslatorError("grammar.json: rule type %s not handled" % t)
+    visible(rules["_expr"], {"_expr"})
+    out = []
+    for k in kinds:
+        if k not in rules:
+            raise TranslatorError("grammar.json: node kind %s has no rule" % k)
+        out.append((k, first_letter(rules[k], {k})))
+    return out
+
+
+def adjacency_rule(mraw):
+    """the rule of `needs_guard` for a next node that follows with NOTHING in between: ("all-but", [exclusions]) for
+    `!next.kind().starts_with("tok_") && next.kind()!="subscript"` (every other kind is guarded), or ("only", [kinds])
+    for a positive list `LIST.contains(&next.kind())`"""
+    m = re.search(r"\bfn\s+needs_guard\b.*?\n\t\}", mraw, re.S)
+    if not m:
+        raise TranslatorError("minifier.rs: needs_guard not found")
+    body = m.group(0)
+    am = re.search(r"if\s+parent\.next_sibling\(\)\s*==\s*Some\(next\)\s*&&\s*(.*?)\{\s*return\s+true\s*;", body, re.S)
+    if not am:
+        raise TranslatorError("minifier.rs: adjacency rule of needs_guard not recognised")
+    cond = re.sub(r"\s+", "", am.group(1))
+    em = re.fullmatch(r'!next\.kind\(\)\.starts_with\("tok_"\)((?:&&next\.kind\(\)!="\w+")*)', cond)
+    if em:
+        return "all-but", re.findall(r'!="(\w+)"', em.group(1))
+    pm = re.fullmatch(r"(\w+)\.contains\(&next\.kind\(\)\)", cond)
+    if pm:
+        lm = re.search(r"const\s+%s\s*:\s*\[\s*&str\s*;\s*\d+\s*\]\s*=\s*\[(.*?)\]\s*;" % pm.group(1), body, re.S)
+        if not lm:
+            raise TranslatorError("minifier.rs: list %s of the adjacency rule not found" % pm.group(1))
+        return "only", re.findall(r'"([^"]*)"', lm.group(1))
+    raise TranslatorError("minifier.rs: adjacency rule of needs_guard has an unknown form: %s" % cond[:120])
+
+
 def generate(repo):
     paths = [os.path.join(repo, f) for f in FILES]
     tm = strip_rust_comments(open(paths[0]).read())
@@ -110,6 +323,21 @@ def generate(repo):
           "def forbidsCombiningAny : List Tok := [" + ", ".join("." + k for k in fany) + "]",
           "def forbidsCombiningNext : List Tok := [" + ", ".join("." + k for k in fnext) + "]",
           "def maxLen : Nat := %s" % mm[0], ""]
-    dg = digest(paths)
+    # PRINT items run together: which node kinds can follow, which of them may begin with a letter (grammar), and what
+    # `needs_guard` does when such a node follows with nothing in between (source)
+    gpath = grammar_path(repo)
+    items = print_item_kinds(gpath)
+    # the raw source keeps string literals (strip_rust_comments keeps them too)
+    form, lst = adjacency_rule(mraw)
+    L += ["/-- node kinds that can be a PRINT item (visible alternatives of `_expr` in tree-sitter-applesoft's grammar.json) with",
+          "\"the first character of such a node may be a letter\" (FIRST sets over the grammar; names come from the external scanner) -/",
+          "def printItemKinds : List (List Nat × Bool) := [" + ", ".join("(%s, %s)" % (lean_bytes(k), "true" if b else "false") for k, b in items) + "]",
+          "-- " + " ".join("%s=%s" % (k, "letters" if b else "-") for k, b in items),
+          "/-- the adjacency rule of `needs_guard`: `true` = every adjacent node kind is guarded except `tok_*` and the listed",
+          "kinds; `false` = only the listed kinds are guarded -/",
+          "def adjacentGuardsAllBut : Bool := %s" % ("true" if form == "all-but" else "false"),
+          "def adjacentKindList : List (List Nat) := [" + ", ".join(lean_bytes(k) for k in lst) + "]",
+          "-- adjacency rule: %s %s" % (form, " ".join(lst)), ""]
+    dg = digest(paths + [gpath])
     L += ['def sourceDigest : String := "%s"' % dg, "", "end A2Verif.Gen.MinifyGuards", ""]
     return {"MinifyGuards": "\n".join(L)}, {"MinifyGuards": dg}
